@@ -92,7 +92,8 @@ def gen_case(run_seed, tier):
         hist.append([k] + [wl.randrange(1000) for _ in range(5)])
     return {"ne": ne, "np": np_, "programs": progs, "target": [tg[0], [list(e) for e in tg[1]]],
             "target_reps": [sz.choice(["g", "s", "dm"]) for _ in range(sz.randint(1, 2))],
-            "with_trs_circuit": sz.random() < 0.4 and np_ >= 2, "history": hist, "lseed": sz.randrange(10**9)}
+            "with_trs_circuit": sz.random() < 0.4 and np_ >= 2, "history": hist, "lseed": sz.randrange(10**9),
+            "shuffle_nodes": sz.random() < 0.4}
 
 
 def simplify(case):
@@ -281,8 +282,18 @@ def noise_map(rng):
     return m
 
 
-def make_target(n, edges, rep):
-    t = QuantumState(graphs.to_nx((n, edges)), rep_type="g")
+def make_target(n, edges, rep, order_seed=None):
+    G = graphs.to_nx((n, edges))
+    if order_seed is not None:
+        # same labelled graph, vertices created in another order: qubit k is the k-th created vertex throughout graphiq
+        import networkx as nx
+
+        order = list(range(n))
+        random.Random(order_seed).shuffle(order)
+        G = nx.Graph()
+        G.add_nodes_from(order)
+        G.add_edges_from(edges)
+    t = QuantumState(G, rep_type="g")
     if rep != "g":
         t.convert_representation(rep)
     return t
@@ -312,7 +323,7 @@ def run_case(case):
                 c, _ = build({"ne": ne, "np": np_, "nc": 1, "history": prog})
                 circuits.append({"obj": c, "origin": "program", "uses": [], "noisy_derived": False, "noisy": False})
             for rep in case["target_reps"]:
-                targets.append({"obj": make_target(tn, tedges, rep), "rep": rep})
+                targets.append({"obj": make_target(tn, tedges, rep, order_seed=(case["lseed"] + 23) if case.get("shuffle_nodes") else None), "rep": rep})
                 ctx.probe({"g": "target_graph", "s": "target_stab", "dm": "target_dm"}[rep])
             if case["with_trs_circuit"]:
                 from graphiq.solvers.time_reversed_solver import TimeReversedSolver
